@@ -385,6 +385,19 @@ func runCheck(prop, tier string, seed int) int {
 	// scenario replays on the real code (real kernel): recorded findings must still be the recorded ones,
 	// repaired defects must stay repaired
 	scenarioRuns := []map[string]interface{}{}
+	// regression scenarios of the property (spec/meta.json): parts of the code that are not under contract
+	for _, sc := range metaScenarios(prop) {
+		pass, out := runScenario(sc)
+		scenarioRuns = append(scenarioRuns, map[string]interface{}{"scenario": sc, "state": "regression", "passes": pass})
+		if !pass {
+			os.MkdirAll(replayDir, 0o755)
+			path := filepath.Join(replayDir, sc+".replay.json")
+			b, _ := json.MarshalIndent(map[string]interface{}{"property": prop, "obligation": "scenario " + sc, "reproduced_on_real_code": true, "cmd": scenarioCmd(sc), "output": out}, "", " ")
+			os.WriteFile(path, b, 0o644)
+			rep.violations = append(rep.violations, fmt.Sprintf("VIOLATION property=%s replay=%s", prop, path))
+			fmt.Printf("scenario %s fails on the real code: %s\n", sc, scenarioWhy(out))
+		}
+	}
 	for i := range known {
 		kf := &known[i]
 		if kf.Property != prop || kf.Scenario == "" {
@@ -439,6 +452,36 @@ func runCheck(prop, tier string, seed int) int {
 		"undecided":                rep.undecided,
 		"vacuity_checks":           len(vacuity),
 		"per_obligation_timeout_s": timeout,
+	}
+	if tier == "thorough" && os.Getenv("VERIF_NO_CANARIES") == "" {
+		cov["canaries"] = runCanaries(prop, &rep)
+	}
+	if tier == "thorough" {
+		// stability: every obligation again with two more solver seeds; a changed verdict is reported
+		var unstable []string
+		for _, sd := range []int{seed + 1, seed + 2} {
+			first := map[*Obligation]string{}
+			for _, o := range all {
+				first[o] = o.Result
+			}
+			var again []*Obligation
+			for _, o := range all {
+				if !o.Trivial && o.vc != nil && o.SplitBits == 0 {
+					again = append(again, o)
+				}
+			}
+			dischargeAll(again, timeout, sd, false)
+			for _, o := range again {
+				if o.Result != first[o] {
+					unstable = append(unstable, fmt.Sprintf("%s: %s with seed %d, %s with seed %d", o.Name, first[o], seed, o.Result, sd))
+					if first[o] == "unsat" {
+						o.Result = "unsat" // discharged once is discharged; the instability is reported as proof debt
+					}
+				}
+			}
+		}
+		cov["seeds_tried"] = 3
+		cov["unstable_obligations"] = unstable
 	}
 	if extra := propExtra(prop, tier, seed, &rep); extra != nil {
 		for k, v := range extra {
@@ -690,4 +733,85 @@ func scenarioWhy(out string) string {
 		}
 	}
 	return firstLines(out, 2)
+}
+
+
+// runCanaries: the must-fail edits of selftest/corpus.json for this property, each applied to a scratch copy
+// of the tree under check; the check must report a violation on the expected obligation. A miss means the
+// machinery lost detection power: reported as UNDECIDED (never as a violation of the property).
+func runCanaries(prop string, rep *checkReport) map[string]interface{} {
+	b, err := os.ReadFile(filepath.Join(verifRoot(), "selftest", "corpus.json"))
+	if err != nil {
+		return map[string]interface{}{"error": err.Error()}
+	}
+	var c struct {
+		MustFail []struct {
+			ID, Property, File, Old, New, Expect, Goos string
+		} `json:"must_fail"`
+	}
+	if err := json.Unmarshal(b, &c); err != nil {
+		return map[string]interface{}{"error": err.Error()}
+	}
+	self, _ := os.Executable()
+	total, detected := 0, 0
+	var details []map[string]string
+	for _, m := range c.MustFail {
+		if m.Property != prop {
+			continue
+		}
+		total++
+		outcome := func() string {
+			dir, err := os.MkdirTemp("", "canary.")
+			if err != nil {
+				return "error: " + err.Error()
+			}
+			defer os.RemoveAll(dir)
+			if out, err := exec.Command("rsync", "-a", "--exclude", ".git", repoDir()+"/", dir+"/").CombinedOutput(); err != nil {
+				return "error: rsync: " + string(out)
+			}
+			src, err := os.ReadFile(filepath.Join(dir, m.File))
+			if err != nil || !strings.Contains(string(src), m.Old) {
+				return "stale (edit does not apply to this tree)"
+			}
+			os.WriteFile(filepath.Join(dir, m.File), []byte(strings.Replace(string(src), m.Old, m.New, 1)), 0o644)
+			cmd := exec.Command(self, "check", prop, "--tier", "quick")
+			cmd.Env = append(os.Environ(), "VERIF_REPO="+dir, "VERIF_EVIDENCE_DIR="+filepath.Join(dir, ".evidence"), "VERIF_TIER=quick")
+			out, _ := cmd.CombinedOutput()
+			for _, ln := range strings.Split(string(out), "\n") {
+				if (strings.HasPrefix(ln, "failed obligation") || strings.HasPrefix(ln, "bounded C20 failure") || strings.HasPrefix(ln, "scenario ")) && strings.Contains(ln, m.Expect) {
+					return "detected"
+				}
+			}
+			if strings.Contains(string(out), "VIOLATION") {
+				return "detected (other obligation)"
+			}
+			return "MISSED"
+		}()
+		if strings.HasPrefix(outcome, "detected") {
+			detected++
+		} else if outcome == "MISSED" {
+			rep.undecided = append(rep.undecided, "canary "+m.ID+" (a deliberate break of "+prop+") is no longer detected")
+		}
+		details = append(details, map[string]string{"id": m.ID, "outcome": outcome})
+	}
+	return map[string]interface{}{"total": total, "detected": detected, "details": details}
+}
+
+
+func metaScenarios(prop string) []string {
+	b, err := os.ReadFile(filepath.Join(verifRoot(), "spec", "meta.json"))
+	if err != nil {
+		return nil
+	}
+	var m map[string]json.RawMessage
+	if json.Unmarshal(b, &m) != nil {
+		return nil
+	}
+	var e struct {
+		Scenarios []string `json:"scenarios"`
+	}
+	if raw, ok := m[prop]; ok {
+		json.Unmarshal(raw, &e)
+	}
+	return e.Scenarios
 }
